@@ -1,7 +1,5 @@
 package type3
 
-import "encoding/hex"
-
 // C03 (type 3 protocol steps): arbitrary peer bytes into FinalizeToken, Evaluate, VerifyRequest
 // and FinalizeIndex never panic, loop or over-allocate.
 
@@ -110,4 +108,3 @@ func VerifC03_type3_finalize_index() {
 	}
 }
 
-func hexOf(b []byte) string { return hex.EncodeToString(b) }
